@@ -41,7 +41,8 @@ func (h *RTPInfo) Unmarshal(v base.HeaderValue) error {
 
 		urlReceived := false
 
-		for k, v := range kvs {
+		for _, k := range sortedKeys(kvs) {
+			v := kvs[k]
 			switch k {
 			case "url":
 				e.URL = v
